@@ -10,7 +10,7 @@ from lib import dbcgen as G
 from lib import matrices as M
 
 PID = "C05"
-EXTRA_PROPS = ("Num",)
+EXTRA_PROPS = ("Num", "C05b")
 RULE = ("case 'rt' = a generated matrix of DBC-expressible content (identifier names incl. names longer than 32 characters, ECU names "
         "of >= 2 characters, standard/extended ids, CAN FD and J1939 frames, simple and extended multiplexing, float signals, limits, "
         "start values inside the limits and on the raw grid, cycle times, value tables with quotes, comments over several lines with "
@@ -205,6 +205,21 @@ def cases_of(desc, rng=None):
     for v in vals[:3]:
         if "\\" not in "".join(t for _, t in v["entries"]):
             yield {"op": "val", "c": {"m": desc, "val": v}}
+    # further statements: senders beyond the first, float types, extended multiplexing bindings
+    n = {"tx": 0, "vt": 0, "mul": 0}
+    for f in db.frames:
+        cid = f.arbitration_id.to_compound_integer()
+        if len(f.transmitters) > 1 and n["tx"] < 3:
+            n["tx"] += 1
+            yield {"op": "tx", "c": {"m": desc, "tx": {"id": cid, "ecus": list(f.transmitters)}}}
+        for s in f.signals:
+            if s.is_float and n["vt"] < 3:
+                n["vt"] += 1
+                yield {"op": "vt", "c": {"m": desc, "vt": {"id": cid, "name": out_name(s.name), "double": int(s.size) > 32}}}
+            if f.is_complex_multiplexed and s.muxer_for_signal is not None and n["mul"] < 3:
+                n["mul"] += 1
+                yield {"op": "mul", "c": {"m": desc, "mul": {"id": cid, "sig": out_name(s.name), "muxer": s.muxer_for_signal,
+                                                              "ranges": [[int(a), int(b)] for a, b in s.mux_val_grp]}}}
 
 
 def section_lines(r):
@@ -256,6 +271,31 @@ def observe(case):
         fr = db.frames[0] if db.frames else None
         sg = (fr.signals[0] if fr and fr.signals else None) or (db.signals[0] if db.signals else None)
         return {"line": line, "parsed": {"id": v["id"], "name": v["name"], "entries": [[int(k), t] for k, t in sg.values.items()]} if sg is not None else None}
+    if op == "tx":
+        t = c["tx"]
+        line = next((l for l in r["lines"] if l.startswith("BO_TX_BU_ %d " % t["id"])), None)
+        if line is None:
+            return {"line": "", "parsed": None}
+        db, _ = load_lines(["BO_ %d F: 8 Vector__XXX" % t["id"], "", line], enc)
+        return {"line": line, "parsed": {"id": t["id"], "ecus": list(db.frames[0].transmitters)} if db.frames else None}
+    if op == "vt":
+        v = c["vt"]
+        line = next((l for l in r["lines"] if l.startswith("SIG_VALTYPE_ %d %s " % (v["id"], v["name"]))), None)
+        if line is None:
+            return {"line": "", "parsed": None}
+        db, _ = load_lines(["BO_ %d F: 64 X" % v["id"], " SG_ %s : 0|%d@1+ (1,0) [0|1] \"\" X" % (v["name"], 64 if v["double"] else 32), "", line], enc)
+        sg = db.frames[0].signals[0] if db.frames and db.frames[0].signals else None
+        return {"line": line, "parsed": {"id": v["id"], "name": sg.name, "float": bool(sg.is_float)} if sg is not None else None}
+    if op == "mul":
+        v = c["mul"]
+        line = next((l for l in r["lines"] if l.startswith("SG_MUL_VAL_ %d %s " % (v["id"], v["sig"]))), None)
+        if line is None:
+            return {"line": "", "parsed": None}
+        db, _ = load_lines(["BO_ %d F: 64 X" % v["id"], " SG_ %s m0 : 8|8@1+ (1,0) [0|1] \"\" X" % v["sig"], "", line], enc)
+        sg = db.frames[0].signals[0] if db.frames and db.frames[0].signals else None
+        if sg is None or sg.muxer_for_signal is None:
+            return {"line": line, "parsed": None}
+        return {"line": line, "parsed": {"id": v["id"], "sig": sg.name, "muxer": sg.muxer_for_signal, "ranges": [[int(a), int(b)] for a, b in sg.mux_val_grp]}}
     raise ValueError(op)
 
 
